@@ -300,12 +300,12 @@ class DlmsConnection:
         the IP wrapper element so it is possible to can keep on trying until all data
         is received.
         """
-        apdu = XDlmsApduFactory.apdu_from_bytes(self.buffer)
-
-        if isinstance(apdu, acse.ApplicationAssociationResponse):
-            # To be able to run the decryption we need to know some things about the
-            # meter and that has to be extracted first
-            self.update_meter_info(apdu)
+        try:
+            apdu = XDlmsApduFactory.apdu_from_bytes(self.buffer)
+        finally:
+            # The data is consumed even if it can't be parsed. Otherwise it would be
+            # prepended to the next APDU we receive.
+            self.clear_buffer()
 
         if self.use_protection:
             apdu = self.unprotect(apdu)
@@ -321,9 +321,10 @@ class DlmsConnection:
                 )
 
         self.state.process_event(apdu)
-        self.clear_buffer()
 
         if isinstance(apdu, acse.ApplicationAssociationResponse):
+            # The AARE has been accepted, now we can remember what the meter told us.
+            self.update_meter_info(apdu)
             self.update_negotiated_parameters(apdu)
 
             if apdu.result in [
@@ -446,11 +447,18 @@ class DlmsConnection:
     def decrypt(
         self,
         ciphered_text: bytes,
+        system_title: Optional[bytes] = None,
+        invocation_counter: Optional[int] = None,
     ):
         """
-        Encrypts ciphered bytes according to the current association and connection.
-        In the case of AARE we have not had the opportunity to
+        Decrypts ciphered bytes according to the current association and connection.
+        The system title and invocation counter of the sender can be given, they are
+        not remembered until the APDU has been authenticated.
         """
+        if system_title is None:
+            system_title = self.meter_system_title
+        if invocation_counter is None:
+            invocation_counter = self.meter_invocation_counter
 
         if not self.global_encryption_key:
             raise ProtectionError(
@@ -460,15 +468,15 @@ class DlmsConnection:
             raise ProtectionError(
                 "Unable to decrypt ciphered text. Missing global_authentication_key"
             )
-        if not self.meter_system_title:
+        if not system_title:
             raise ProtectionError(
                 "Unable to decrypt ciphered text. Have not received the meters system title."
             )
 
         return security.decrypt(
             self.security_control,
-            system_title=self.meter_system_title,
-            invocation_counter=self.meter_invocation_counter,
+            system_title=system_title,
+            invocation_counter=invocation_counter,
             key=self.global_encryption_key,
             auth_key=self.global_authentication_key,
             cipher_text=ciphered_text,
@@ -490,21 +498,36 @@ class DlmsConnection:
                     event.user_information.content,
                     xdlms.GlobalCipherInitiateResponse,
                 ):
-                    self.update_meter_invocation_counter(
+                    invocation_counter = (
                         event.user_information.content.invocation_counter
                     )
+                    self.validate_meter_invocation_counter(invocation_counter)
+                    # The AARE holds the meter system title. It is not remembered
+                    # until the AARE is accepted.
+                    system_title = self.meter_system_title
+                    if isinstance(event, acse.ApplicationAssociationResponse):
+                        system_title = event.system_title or system_title
                     plain_text = self.decrypt(
-                        event.user_information.content.ciphered_text
+                        event.user_information.content.ciphered_text,
+                        system_title=system_title,
+                        invocation_counter=invocation_counter,
                     )
                     # Replace the ciphered InitiateResponse with the decrypted.
                     event.user_information.content = xdlms.InitiateResponse.from_bytes(
                         plain_text
                     )
+                    # authenticated and understood, so the counter is used.
+                    self.meter_invocation_counter = invocation_counter
 
         elif isinstance(event, xdlms.GeneralGlobalCipher):
-            self.update_meter_invocation_counter(event.invocation_counter)
-            plain_text = self.decrypt(event.ciphered_text)
+            self.validate_meter_invocation_counter(event.invocation_counter)
+            plain_text = self.decrypt(
+                event.ciphered_text, invocation_counter=event.invocation_counter
+            )
+            invocation_counter = event.invocation_counter
             event = XDlmsApduFactory.apdu_from_bytes(plain_text)
+            # authenticated and understood, so the counter is used.
+            self.meter_invocation_counter = invocation_counter
 
         else:
             raise RuntimeError(f"Unable to handle decryption/unprotection of {event}")
@@ -667,7 +690,7 @@ class DlmsConnection:
         )
         return gmac_result == correct_gmac
 
-    def update_meter_invocation_counter(self, received_invocation_counter: int) -> None:
+    def validate_meter_invocation_counter(self, received_invocation_counter: int) -> None:
         """
         The received invocation counter must be larger than the last one we registered.
         """
@@ -676,6 +699,9 @@ class DlmsConnection:
                 "Received invocation counter is not larger than the previous "
                 "received one. "
             )
+
+    def update_meter_invocation_counter(self, received_invocation_counter: int) -> None:
+        self.validate_meter_invocation_counter(received_invocation_counter)
         self.meter_invocation_counter = received_invocation_counter
 
     def update_meter_info(self, aare: acse.ApplicationAssociationResponse) -> None:
